@@ -462,6 +462,20 @@ PROPS['C01'] = {
 def judge_xml(pid):
     def judge(case, out):
         v = []
+        if case.get('op') == 'specOnly':
+            # too large for the executable model: the specification alone (save succeeds, the file opens, to the same database)
+            r = case['real']
+            shape = case.get('shape')
+            if pid in ('C03', 'C12', 'C07'):
+                if isinstance(r.get('save'), str) and r['save'].startswith('panic'):
+                    v.append(('SPECFAIL', '%s:large-binary:save-panics' % pid.lower(), '%s: %s' % (shape, r['save'])))
+                elif r.get('save') == 'ok' and r.get('reopen') != 'ok':
+                    v.append(('SPECFAIL', '%s:large-binary:saved-file-does-not-open' % pid.lower(), '%s: %s' % (shape, r.get('reopen'))))
+                elif r.get('save') == 'ok' and not r.get('equal') and pid == 'C03':
+                    v.append(('SPECFAIL', 'c03:large-binary:content-differs', str(shape)))
+                elif r.get('save') != 'ok' and pid == 'C03':
+                    v.append(('SPECFAIL', 'c03:large-binary:save-fails', '%s: %s' % (shape, r.get('save'))))
+            return v or [('AGREE', '', '')]
         m = out.get('model') or {}
         real = case['real']
         ch = case.get('checks', {})
